@@ -323,6 +323,31 @@ def _run_property(pid, tier, seed, logdir):
                                  {"range": "apply-range {start, end} with end - start <= %d (end = 255.255.255.255 included)" % span, "range_rev": "apply-range {end, start} with end - start <= %d" % span,
                                   "address": "apply-address", "subnet": "apply-subnet <any address>/%d" % span}[kind]),
                              "Ok or Err, never a panic/overflow; apply-range = [start, end] both ends included; apply-subnet = every address strictly between network and broadcast; prefix lengths > 32 refused"))
+        by_parser = {}
+        for fname, fam, plen in props_config.prefix_string_cases(tier):
+            by_parser.setdefault((fname, fam), []).append(plen)
+        for (fname, fam), lens in by_parser.items():
+            def pthunk(fname=fname, fam=fam, lens=lens):
+                allf, exs, paths, kinds_ = [], None, 0, {}
+                for plen in lens:
+                    f, ex, np_, kd = props_config.prefix_string_obligation(prog, en, structs, fname, fam, plen)
+                    allf += f
+                    paths += np_
+                    for kk, vv in kd.items():
+                        kinds_["/%d %s" % (plen, kk)] = vv
+                    if exs is None:
+                        exs = ex
+                    else:
+                        exs.queries += ex.queries
+                        exs.solver_time += ex.solver_time
+                        exs.encoded_fns |= ex.encoded_fns
+                        exs.used_summaries |= ex.used_summaries
+                        exs.undecided_paths = getattr(exs, "undecided_paths", []) + getattr(ex, "undecided_paths", [])
+                return allf, exs, paths, kinds_
+            jobs.append(cjob("c19_prefix_string_%s_v%d" % (fname, fam), pthunk,
+                             "config::%s from MIR on the text '<address>/<length>' with lengths %s: %s" % (
+                                 fname, lens, "IPv4 address symbolic over all 2^32 values" if fam == 4 else "IPv6 address one of three concrete texts (2001:db8::, ::ffff:192.0.2.0, ::)"),
+                             "Ok(prefix) only for lengths the address family allows (IPv4 <= 32, IPv6 <= 128) and of the parser's family, carrying the written address and length; otherwise InvalidConfig; never a panic"))
         obligations.extend(run_jobs(jobs))
         return obligations
     if pid == "C11":
